@@ -254,6 +254,9 @@ func TestC16(t *testing.T) {
 			c.Ints = append(c.Ints, int64(v))
 		}
 		c.Probe = rapid.SliceOfN(rapid.Int32Range(0, 1<<20), 1, 40).Draw(t, "probes")
+		if pickU(t, "reinit", 4) == 0 {
+			c.Scrib = 1
+		}
 		switch pickU(t, "invalid?", 6) {
 		case 0: // order violation at a drawn position
 			if len(c.Idx) >= 1 {
